@@ -5,20 +5,20 @@ CONSTANTS
   Sessions = {"s1", "s2"}
   Cursors = {"c1", "c2"}
   Cursor0 = "c1"
-  Mutant = "none"
-  Phase = "play"
+  Mutant = "finalize_arrival"
+  Phase = "life"
   NTok <- MC_Tok6_N
   TokAt <- MC_Tok6_At
   PolSeq <- MC_PolQ
-  Family <- MC_FamQ
-  MaxAttempts = 0
-  MaxCommit = 2
+  Family <- MC_FamNone
+  MaxAttempts = 2
+  MaxCommit = 1
   MaxAbort = 0
   MaxFail = 0
-  MaxPlay = 5
-  MaxPub = 3
-  Export = TRUE
-VIEW MC_ViewPlay
+  MaxPlay = 0
+  MaxPub = 0
+  Export = FALSE
+
 INVARIANTS TTypeOK BusIsTickScoped DuplicateRejected NoLeakIntoTick TickIsFunctionOfSet TickPartition CommitKeyAsBuilt LastMatSound SinkSound
 PROPERTIES HistoryImmutable OnlyCommitAddsTick AbortLeavesNothing RejectedEmitKeepsBus PublishExact SessionIsolation OnlySubscribedAppear SubsPersist PlaybackIsReadOnly
 CHECK_DEADLOCK FALSE
